@@ -640,7 +640,11 @@ func doReplay() {
 	}
 	for _, e := range cs.Extra {
 		c, _ := hex.DecodeString(e.Code)
-		p.extra = append(p.extra, account{addr: mkAddr(e.Addr), code: c, balance: 10})
+		ac := account{addr: mkAddr(e.Addr), code: c, balance: 10}
+		for _, kv := range e.Storage {
+			ac.storage = append(ac.storage, [2]word32{wordOfHex(kv[0]), wordOfHex(kv[1])})
+		}
+		p.extra = append(p.extra, ac)
 	}
 	c := getCtx()
 	res := evalOne(c, p, cs.ISet, nil)
@@ -717,6 +721,7 @@ func main() {
 	phase("table", checkTableBinding)
 	phase("cfg", runCfg)
 	phase("wrappers", runWrappers)
+	phase("frames", runFrames)
 	phase("singles", runSingles)
 	phase("sweep", runSweep)
 	phase("create", runCreateTop)
